@@ -1143,7 +1143,9 @@ class SymEval:
         if name in ("jax.numpy.logical_not", "numpy.logical_not") and len(args) == 1:
             return T.mk_not(args[0])
         if name in ("jax.numpy.where", "numpy.where") and len(args) == 3:
-            return T.mk_ite(args[0], args[1], args[2])
+            # elementwise select on arrays: NOT a control-flow merge (indexing / reductions must not be lifted through it);
+            # rules that reason elementwise convert it explicitly with terms.where_to_ite
+            return T.mk_call("jax.numpy.where", args)
         if name in ("jax.numpy.square", "numpy.square") and len(args) == 1:
             return T.mul(args[0], args[0])
         if name == "jax.lax.cond" and len(args) >= 3:
